@@ -373,11 +373,12 @@ func c05Run(r *core.Run) {
 	local := core.NewLocal()
 	completed := map[string]interface{}{}
 	nw := core.Workers
-	perPlan := int(budget.Seconds()) / (len(plans) + 1)
-	if perPlan < 5 {
-		perPlan = 5
-	}
-	for _, pl := range plans {
+	for pi, pl := range plans {
+		// what is left of the budget is shared evenly among the plans still to run
+		perPlan := int(time.Until(r.Deadline).Seconds()) / (len(plans) - pi)
+		if perPlan < 10 {
+			perPlan = 10
+		}
 		if r.Expired() {
 			completed[fmt.Sprintf("%s/threads=%d", pl.Scenario, pl.Threads)] = "not started (internal deadline)"
 			continue
